@@ -6,6 +6,8 @@ spec/CoopClose:
           commit fees, dust limits either way round) x fees around every threshold x either payer; TLC-generated
           behaviours + a seeded free-running driver replayed on real lnwallet channel pairs of 8 channel types
           (MuSig2 for taproot) by harness/lnwallet/c17_test.go; CoopCloseTrace judges.
+  RBF-coop (coarse): single closing_complete/closing_sig rounds through the real rbf_coop transition functions of
+          both parties (harness/lnwallet/chancloser/c17_rbf_test.go), judged as RbfRound.
   part II (legacy fee negotiation): calcCompromiseFee / ratchetFee / feeInAcceptableRange / max-fee abort /
           taproot first-offer rule; TLC exhaustive over all ideal-fee pairs of a range; TLC-sampled and random
           configurations run between two real ChanClosers over real channels by
@@ -21,11 +23,11 @@ LEVEL = "model_checking"
 
 PROFILE = {
     "quick": dict(mc_tx=["CoopCloseMC_tx.cfg"], mc_neg=[("CoopCloseMC_neg.cfg", {})],
-                  tx_n=90, tx_free=25, neg_n=260, neg_free=120),
+                  tx_n=70, tx_free=25, neg_n=260, neg_free=120, rbf_n=60),
     "thorough": dict(mc_tx=["CoopCloseMC_tx.cfg", "CoopCloseMC_tx_thorough.cfg"],
                      mc_neg=[("CoopCloseMC_neg.cfg", {"Step": 1}),
                              ("CoopCloseMC_neg.cfg", {"Lo": 100, "Hi": 6000, "Step": 23, "MaxRounds": 46})],
-                     tx_n=500, tx_free=150, neg_n=1200, neg_free=500),
+                     tx_n=500, tx_free=150, neg_n=1200, neg_free=500, rbf_n=600),
 }
 
 
@@ -101,6 +103,8 @@ def part_tx(ck, prof):
         ck.model_check(SPEC, "CoopCloseMC", cfg, "closing tx grid " + cfg, workers=min(core.NCPU, 8), timeout=1500)
     witness(ck, "CoopCloseMC_wit_noout.cfg", "refusal 'transaction has no outputs'", "NeverRefusedNoOutputs")
     witness(ck, "CoopCloseMC_wit_trim.cfg", "one output trimmed as dust", "NeverTrimmedOne")
+    witness(ck, "CoopCloseMC_wit_cantpay.cfg", "RBF closer refusing a fee the opener could afford with its commit-fee credit",
+            "NeverCantPayAffordable")
     files = ck.generate(SPEC, "CoopCloseGen", "CoopCloseGen_tx.cfg", prof["tx_n"], 50, name="gen_tx", timeout=1500)
     res = ck.go_test("./lnwallet/", "^TestVerifC17CloseTx$", ["lnwallet/c17_test.go"],
                      env={"VERIF_SCHED": os.path.dirname(files[0]), "VERIF_FREE": prof["tx_free"]},
@@ -212,6 +216,47 @@ def part_neg(ck, prof):
                 lambda r: r["a"] == "NegEnd" and r["txeq"] == 1, lambda r: r.__setitem__("txeq", 0))
 
 
+def part_rbf(ck, prof):
+    """Coarse RBF-coop coverage: single closing_complete/closing_sig rounds through the real transition functions
+    of both parties (seeded driver only), judged as the spec's RbfRound."""
+    # the chancloser package cannot reach lnwallet's unexported fixture capacity: lower it by source overlay
+    src = open(os.path.join(core.REPO, "lnwallet", "test_utils.go")).read()
+    if src.count("testChannelCapacity float64 = 10") != 1:
+        raise Inconclusive("lnwallet/test_utils.go: fixture capacity declaration not found")
+    low = os.path.join(ck.out, "test_utils_lowcap.go")
+    with open(low, "w") as fo:
+        fo.write(src.replace("testChannelCapacity float64 = 10", "testChannelCapacity float64 = 0.01"))
+    res = ck.go_test("./lnwallet/chancloser/", "^TestVerifC17RbfRound$",
+                     ["lnwallet/chancloser/c17_test.go", "lnwallet/chancloser/c17_rbf_test.go"],
+                     env={"VERIF_RBF": prof["rbf_n"]}, name="exec_rbf", timeout=2400,
+                     extra_overlay={"lnwallet/test_utils.go": low})
+    trace = os.path.join(res["dir"], "trace.ndjson")
+    if res["rc"] != 0 or not os.path.exists(trace) or os.path.getsize(trace) == 0:
+        if "panic:" in res["out"]:
+            ck.violation("C17:rbf:panic", "real rbf_coop transition code panicked",
+                         files={"go.out": os.path.join(res["dir"], "go.out")}, text=res["out"][-4000:])
+            return
+        raise Inconclusive("rbf executor failed:\n" + res["out"][-3000:])
+
+    def describe(hdr, bad):
+        return "RBF round, channel type %s, dust %s, closer %s fee %s" % (
+            hdr.get("type"), hdr.get("dust", {}).get("A"), bad.get("p"), bad.get("x"))
+    recs, ok = judge(ck, trace, "rbf", describe)
+    rounds = [r for r in recs if r["a"] == "Rbf"]
+    ck.cov["evaluations"] += len(rounds)
+    ck.cov["traces_validated_against_impl"] += sum(1 for r in recs if is_reset(r))
+    outcomes = {}
+    for r in rounds:
+        k = "%s/%s outputs=%d" % (r["res"]["A"], r["res"]["B"], r["nout"]["A"])
+        outcomes[k] = outcomes.get(k, 0) + 1
+    ck.cov["rbf_round_outcomes"] = outcomes
+    ck.cov["distinct_nontrivial"] += len({core.sha(str((r["p"], r["x"], r["val"], r["res"]))) for r in rounds})
+    if ok and not ck.violations:
+        control(ck, recs, "RBF round: closee's transaction recorded with a different output value",
+                lambda r: r["a"] == "Rbf" and r["res"]["A"] == "ok" and r["nout"]["A"] == 2,
+                lambda r: r["val"]["B"].__setitem__("A", r["val"]["B"]["A"] - 1))
+
+
 def run(ck):
     prof = PROFILE[ck.tier]
     only = os.environ.get("C17_ONLY", "")
@@ -219,6 +264,8 @@ def run(ck):
         part_tx(ck, prof)
     if only in ("", "neg"):
         part_neg(ck, prof)
+    if only in ("", "rbf"):
+        part_rbf(ck, prof)
     ck.cov["exhaustive"] = True
     ck.cov["rule"] = (
         "evaluations = closes executed by both sides of a real channel pair (CreateCloseProposal + "
@@ -239,5 +286,5 @@ def run(ck):
         "channel is quiescent (no HTLCs) and both parties' local commitments describe the same state - checked on every recorded state (ConformSynced), produced by real add/settle/update_fee round trips or by writing the split into both channel states",
         "the fixture's initiator (alice) always plays the opener; 'both roles' = opener's dust limit larger/smaller, opener on the small side or not, either party paying (WithCustomPayer), either party asking for the close",
         "no aux/custom-channel extra outputs, no OP_RETURN delivery scripts",
-        "RBF-coop flow: only its fee/balance rule as it reaches lnwallet (closer pays, custom sequence, lock time 0) is covered in part I; the rbf_coop state machine itself is not modelled",
+        "RBF-coop flow, coarse: (a) its close options as they reach lnwallet (closer pays via WithCustomPayer, custom sequence, lock time 0) in part I for all 8 channel types; (b) single closing_complete/closing_sig rounds through the real LocalCloseStart/RemoteCloseStart/LocalOfferSent.ProcessEvent of both parties on non-taproot channels, judged as the spec's RbfRound (closer's pre-check on its balance without commit-fee credit, then the part I transaction). Not modelled: protofsm event loop, shutdown/flush states, the closer_output_only/closee_output_only field selection, taproot nonce handling, multi-round fee monotonicity",
         "negotiation: honest peers, in-order delivery, one message in flight"]
